@@ -509,6 +509,8 @@ Proof.
   - eapply step_inv_clear; eauto.
   - eapply step_inv_handler; eauto.
   - simpl in H. dmatch H. inversion H; subst. exact HI.
+  - simpl in H. destruct HI as [HR HL]. dmatch H; inversion H; subst; (split; [apply (invR_same s); auto|exact HL]).
+  - simpl in H. dmatch H. inversion H; subst. exact HI.
 Qed.
 
 Theorem run_inv : forall ls s s', Inv s -> run s ls = Some s' -> Inv s'.
